@@ -4,6 +4,7 @@ import (
 	"context"
 	"errors"
 	"fmt"
+	"sync"
 	"time"
 
 	header "github.com/celestiaorg/go-header"
@@ -45,14 +46,28 @@ func runC13(s *core.Sim, tier string) RunInfo {
 		late  bool // sent after the request timeout: may or may not count
 	}
 	sentBy := make([]sent, np+1)
+	var memoMu sync.Mutex
 	var trusted []int
 	for i := 1; i <= np; i++ {
 		kind := core.Pick(s.Tape, "kind", c13Kinds)
 		desc = append(desc, fmt.Sprintf("peer%d=%s", i, kind))
 		trusted = append(trusted, i)
 		i := i
-		w.AddScriptPeer(i, func(n int, req *p2p_pb.HeaderRequest) Reply {
-			r := Reply{Kind: kind, Service: time.Duration(10+rng.Draw("svc", 100)) * time.Millisecond}
+		var memo *Reply // a peer answers every request of a run alike (two callers may ask it)
+		w.AddScriptPeer(i, func(n int, req *p2p_pb.HeaderRequest) (r Reply) {
+			memoMu.Lock()
+			if memo != nil {
+				r = *memo
+				memoMu.Unlock()
+				return r
+			}
+			memoMu.Unlock()
+			defer func() {
+				memoMu.Lock()
+				memo = &r
+				memoMu.Unlock()
+			}()
+			r = Reply{Kind: kind, Service: time.Duration(10+rng.Draw("svc", 100)) * time.Millisecond}
 			switch kind {
 			case "honest":
 				r.Frames = okFrames(target)
@@ -131,15 +146,47 @@ func runC13(s *core.Sim, tier string) RunInfo {
 		desc = append(desc, "Exchange stopped mid-request")
 		s.Probe("exchange-stopped-mid-request")
 	}
-	t, fin := s.Do(op, deadline+2*time.Second, func() {
+	ask := func(ctx context.Context) (*H, error) {
+		if byHash {
+			return w.Ex.Get(ctx, target.Hash())
+		}
+		return w.Ex.GetByHeight(ctx, target.Height())
+	}
+	// a second caller on the same Exchange at the same time: the same request (judged alike) or a
+	// Head (which shares the trusted-peer list with it)
+	second := core.Pick(s.Tape, "second-caller", []string{"", "", "same", "head"})
+	var got2 *H
+	var gerr2 error
+	var t2 *core.Task
+	if second != "" {
+		s.Probe("second-caller-" + second)
+		t2 = s.Go("second-"+second, func() {
+			ctx, cancel := context.WithTimeout(context.Background(), deadline)
+			defer cancel()
+			if second == "same" {
+				got2, gerr2 = ask(ctx)
+			} else {
+				_, _ = w.Ex.Head(ctx)
+			}
+		})
+	}
+	t := s.Go(op, func() {
 		ctx, cancel := context.WithTimeout(context.Background(), deadline)
 		defer cancel()
-		if byHash {
-			got, gerr = w.Ex.Get(ctx, target.Hash())
-		} else {
-			got, gerr = w.Ex.GetByHeight(ctx, target.Height())
-		}
+		got, gerr = ask(ctx)
 	})
+	fin := true
+	waitFor := []*core.Task{t}
+	if t2 != nil {
+		waitFor = append(waitFor, t2)
+	}
+	for _, st := range s.Settle(deadline+2*time.Second, waitFor...) {
+		_ = st
+		fin = false
+	}
+	if fin && t2 != nil && t2.Panic != nil {
+		t = t2
+	}
 	if stopped {
 		s.Settle(2*time.Minute, stopT)
 		w.Ex = nil // stopped already
@@ -163,54 +210,60 @@ func runC13(s *core.Sim, tier string) RunInfo {
 		s.Violate("hang", at, "%s did not return within its deadline [%v]", op, desc)
 		return info
 	}
-	nValid, nValidRight, nValidWrong := 0, 0, 0
-	for _, sb := range sentBy {
-		if sb.valid {
-			nValid++
-			if simhdr.Equal(sb.h, target) {
-				if !sb.late {
-					nValidRight++
-				}
-			} else {
-				nValidWrong++
-			}
-		}
-	}
-	if gerr == nil {
-		if got == nil {
-			s.Violate("zero-header-nil-error", at, "%s returned a zero header and a nil error [%v]", op, desc)
-			return info
-		}
-		ok := false
+	judge := func(got *H, gerr error) {
+		nValid, nValidRight, nValidWrong := 0, 0, 0
 		for _, sb := range sentBy {
-			if sb.valid && simhdr.Equal(sb.h, got) {
-				ok = true
+			if sb.valid {
+				nValid++
+				if simhdr.Equal(sb.h, target) {
+					if !sb.late {
+						nValidRight++
+					}
+				} else {
+					nValidWrong++
+				}
 			}
 		}
-		if !ok {
-			s.Violate("unvalidated-header-returned", at, "%s returned %v which no trusted peer sent as a valid first response [%v]", op, got, desc)
-			return info
+		if gerr == nil {
+			if got == nil {
+				s.Violate("zero-header-nil-error", at, "%s returned a zero header and a nil error [%v]", op, desc)
+				return
+			}
+			ok := false
+			for _, sb := range sentBy {
+				if sb.valid && simhdr.Equal(sb.h, got) {
+					ok = true
+				}
+			}
+			if !ok {
+				s.Violate("unvalidated-header-returned", at, "%s returned %v which no trusted peer sent as a valid first response [%v]", op, got, desc)
+				return
+			}
+			if byHash && string(got.Hash()) != string(target.Hash()) {
+				s.Violate("hash-mismatch", at, "Get(%X) returned a header with hash %X [%v]", target.Hash()[:4], got.Hash()[:4], desc)
+				return
+			}
+			if err := got.Validate(); err != nil || got.ChainID() != "sim-chain" {
+				s.Violate("unvalidated-header-returned", at, "%s returned %v: Validate=%v chain=%q", op, got, err, got.ChainID())
+			}
+			s.Probe("returned-header")
+			return
 		}
-		if byHash && string(got.Hash()) != string(target.Hash()) {
-			s.Violate("hash-mismatch", at, "Get(%X) returned a header with hash %X [%v]", target.Hash()[:4], got.Hash()[:4], desc)
-			return info
+		// error: must not happen when a trusted peer answered validly (and nobody lied with a valid other header)
+		if nValidRight > 0 && nValidWrong == 0 {
+			s.Violate("valid-answer-ignored", at, "%s failed with %v although %d trusted peers answered validly [%v]", op, gerr, nValidRight, desc)
+			return
 		}
-		if err := got.Validate(); err != nil || got.ChainID() != "sim-chain" {
-			s.Violate("unvalidated-header-returned", at, "%s returned %v: Validate=%v chain=%q", op, got, err, got.ChainID())
+		if got != nil {
+			s.Violate("header-with-error", at, "%s returned both %v and error %v", op, got, gerr)
 		}
-		s.Probe("returned-header")
-		return info
+		_ = errors.Is
+		_ = header.ErrNotFound
+		s.Probe("returned-error")
 	}
-	// error: must not happen when a trusted peer answered validly (and nobody lied with a valid other header)
-	if nValidRight > 0 && nValidWrong == 0 {
-		s.Violate("valid-answer-ignored", at, "%s failed with %v although %d trusted peers answered validly [%v]", op, gerr, nValidRight, desc)
-		return info
+	judge(got, gerr)
+	if second == "same" && len(s.Violations) == 0 {
+		judge(got2, gerr2)
 	}
-	if got != nil {
-		s.Violate("header-with-error", at, "%s returned both %v and error %v", op, got, gerr)
-	}
-	_ = errors.Is
-	_ = header.ErrNotFound
-	s.Probe("returned-error")
 	return info
 }
